@@ -1,7 +1,7 @@
 (* C11 — trim = rtrim ; ltrim renumbers mutations twice; the two rank maps compose to the
    single rank map of the fused site mask, so [trim] is one renumbering like the others. *)
 From Coq Require Import List ZArith Bool Lia Permutation Sorted ZifyBool.
-From TskVerif Require Import Base.Common Gen.Generated C11.Model C11.Spec C11.IntervalProofs
+From TskVerif Require Import Base.Common C11.Model C11.Spec C11.IntervalProofs
      C11.SitesProofs C11.KeepProofs C11.TrimProofs.
 Import ListNotations.
 Open Scope Z_scope.
